@@ -23,7 +23,7 @@ TECHNIQUE = 'descriptor/audit monitor (/proc/self/fd diff + sys.addaudithook + R
 RULE = ('base files from vlib.model.gen_file; corruption kinds x API x ownership x index; non-trivial = the API raised, or a '
         'close->read->close history ran; distinct = (corruption kind, outcome raised/returned + exception type, API, path|stream, index kind)')
 ASSUMPTIONS = ['Linux /proc/self/fd is authoritative for open descriptors', 'the harness closes all files it opens itself (with-blocks)']
-REQUIRED = ['caller_index_streams_checked', 'writer_reuse_blocks', 'api_calls', 'api_raised', 'fd_scans', 'library_open_events', 'after_close_ops', 'caller_streams_checked', 'writer_sessions',
+REQUIRED = ['defragment_calls', 'caller_index_streams_checked', 'writer_reuse_blocks', 'api_calls', 'api_raised', 'fd_scans', 'library_open_events', 'after_close_ops', 'caller_streams_checked', 'writer_sessions',
             'index_opened_by_library', 'double_close']
 N = {'quick': 40, 'thorough': 2500}
 
@@ -188,6 +188,37 @@ def run_case(case, ctx):
             ctx.count('caller_index_streams_checked')
             if istream.closed:
                 ctx.violation('caller-stream-closed/index-stream/%s' % api, {'corrupt': case['corrupt']})
+    # ---- TdmsWriter.defragment: opens the source itself; whether it returns or raises nothing may stay open
+    if case['corrupt'] in ('none', 'bad-tag-later', 'metadata-cut', 'unknown-type'):
+        util.write_file(path, bad)
+        if os.path.exists(ipath):
+            os.remove(ipath)
+        for dest_kind in ('path', 'stream', 'bad-destination', 'bad-index-argument'):
+            ctx.evaluation()
+            dpath = os.path.join(ctx.tmpdir, 'defrag.tdms')
+            fdmon.take_opens()
+            fdmon.take_warnings()
+            with fdmon.NoGC():
+                dstream = io.BytesIO()
+                try:
+                    if dest_kind == 'path':
+                        TdmsWriter.defragment(path, dpath, index_file=True)
+                    elif dest_kind == 'stream':
+                        TdmsWriter.defragment(path, dstream)
+                    elif dest_kind == 'bad-destination':
+                        TdmsWriter.defragment(path, os.path.join(ctx.tmpdir, 'no-such-dir', 'x.tdms'))
+                    else:
+                        TdmsWriter.defragment(path, dpath, index_file='yes')
+                    outcome = 'returned'
+                except Exception as ex:
+                    outcome = 'raised'
+                    ctx.count('api_raised')
+                    keep_alive = ex
+                ctx.count('defragment_calls')
+                scan(ctx, 'defragment-%s/%s' % (outcome, dest_kind), {'corrupt': case['corrupt'], 'dest': dest_kind})
+                if dstream.closed:
+                    ctx.violation('caller-stream-closed/defragment', {'dest': dest_kind})
+                keep_alive = None
     # ---- one TdmsWriter object used for several with-blocks (append mode, one block per batch)
     for index in (False, True):
         ctx.evaluation()
